@@ -24,6 +24,14 @@ V.mk_varint_pack('C02')
 TRUSTED += V.LEMMAS
 LEAN_LEMMAS = V.LEAN_LEMMAS
 
+# collections, tuples and UDTs: Cassandra's element layout ([int32 length][bytes], -1 for null) byte for byte, and "any encoding Cassandra produces decodes to the
+# value Cassandra means by it" - in particular a zero-length element of a type whose empty encoding is a value (text, blob) is that value, not null
+K.mk_listlike('C02', 'ListType', False)
+K.mk_tuple('C02', False)
+K.mk_tuple('C02', False, empty_ok=True)
+K.mk_tuple('C02', True)
+K.mk_tuple('C02', True, empty_ok=True)
+
 from contracts import bounded_codec as B
 BOUNDED = [B.out_of_range_vints, B.decimal_exact, B.struct_probe, B.timestamp_encode_exact]
 EXPLANATION += '; bounded stand-ins (labelled, not proof): out-of-range vints must raise, DecimalType byte-exact, struct/hex conformance probes'
